@@ -367,6 +367,31 @@ def run(model, col, tier):
     from . import c10 as _c10
 
     _c10.check_exported_unique(model, col, "R16.4")
+    # imported and own functions of one name are one overload set: they are registered in one scope, imports first (= R10.3)
+    from ..report import Collector as _C168
+
+    sub168 = _C168("C10")
+    _c10.run(model, sub168, "quick")
+    n168 = 0
+    for ob in sub168.obligations:
+        if ob.rule == "R10.3" and "v_Module" in ob.construct:
+            ob.detail = "[R10.3] " + (ob.detail or "")
+            ob.rule = "R16.5"
+            col.obligations.append(ob)
+            n168 += 1
+    col.floor("R16.5", "v_Module registration obligations shared with C10", n168, 2)
+    # module names are resolved against the same directory when a module is compiled and when the program is run: neither
+    # front end changes the working directory (or another interpreter-wide setting)
+    from .c18 import process_setters as _ps168
+
+    for rel in ("nslc.py", "nslr.py"):
+        fi_ = model.files.get(rel)
+        if fi_ is None:
+            raise AnchorMissing(rel)
+        hits = _ps168(fi_.tree)
+        col.check(not hits, "R16.8", f"{rel}:: changes no interpreter-wide setting", "no os.chdir / sys.path / os.environ write",
+                  (f"`{' '.join(unparse(hits[0]).split())[:70]}`" if hits else "") + ": import names recorded at compile time are looked up relative to another directory at run time - "
+                  "another (stale) file of that name is linked, or none is found", rel, hits[0] if hits else fi_.tree)
     for rel, x in writers:
         col.check(rel == "nsl/passes/LowerToIR.py", "R16.8", f"{rel}:: writes Module.Metadata only while lowering", "the interface of a module (functions, types) is what lowering recorded",
                   f"`{' '.join(unparse(x).split())[:90]}` in {rel} changes the recorded interface after lowering: importers no longer see the functions / types the module defines "
